@@ -4,7 +4,7 @@ import (
 	"go/ast"
 )
 
-func (g *Gen) tables(id string)                                  {}
+func (g *Gen) tables(id string) { g.ruleLemmas(id) }
 func (g *Gen) thoroughExtras(id string, obls *[]*Obligation, work string) {}
 func runSelftest(args []string) int { return 2 }
 
